@@ -75,7 +75,7 @@ def all_sequences(maxlen):
 
 def random_sequence(rng):
     n = rng.randint(0, 14)
-    texts = ['a', 'b\n', '', 'é\n', 'xy\nz', '\x1b[0m', ' ']
+    texts = ['a', 'b\n', '', 'é\n', 'xy\nz', '\x1b[0m', ' ', 'p 10%\rp 50%\r', 'rec1,rec2\r\n', '\r']
     out = []
     for _ in range(n):
         r = rng.random()
